@@ -257,6 +257,11 @@ func combos(kind int) []combo {
 	add(sE, "an ECDSA stranger", sE, "its certificate issued by another CA")
 	add(sE, "an ECDSA stranger", dE, "a delegate certificate (not the signer)")
 	add(w.impostor[kind], "an impostor", w.impostor[kind], "its certificate, which names the issuer but is signed by another key")
+	for _, l := range w.lookalike[kind] {
+		add(l, "a stranger holding "+l.name, l, "that certificate")
+	}
+	add(iss, "the issuer", iss, "the issuer's own certificate")
+	add(sE, "an ECDSA stranger", iss, "the issuer's own certificate (not the signer)")
 	return out
 }
 
